@@ -34,6 +34,7 @@ EXPLANATION = (
     "one stored to the future; flush = pop -> assemble -> instantiate -> send -> reset."
     ' Every early return of the loop assemblers is evaluated over a grid of bodies and bounds: the loop may be dropped only when it cannot run. C05.R: a register is not used in an emitted command after its release. C05.Z: no truthiness test on an int-typed value.'
     " C05.H: the host's shared memory holds the controller's own array object: ret_arr -> _update_shared_memory -> SharedMemory.init_new_array -> Arrays._set_array and both _get_array accessors hand the list on as a bare name / subscript (no copy). C05.K: memoisation keys cover the arguments."
+    ' Executed abstractly (checker-side AST interpreter): flip_branch_instr for the six conditions; both branch builders for future / int operands (loads, branch operands, one label, its definition after the body); the four loop emitters with distinguishable arguments; the at-most break for v in -3..4 against f <= v; add on Future / RegFuture for other in {int, register, future} x mod in {None, int}; _build_cmds_measure for 3 bases x explicit rotations x inplace x Future / RegFuture, including that the emitted rotation followed by a Z measurement measures the requested axis.'
 )
 LEVEL_TEXT = (
     "Static analysis, partial: operand, register, label and branch-sense coherence at every emit site of the control-flow "
